@@ -12,7 +12,12 @@
 //  2. for `(*Compiler).Compile` in internal/backends/compiler_wat: does it call wir.SetCurrentModule, and
 //     is that call preceded, in the function body, by `X.Lock()` together with `defer X.Unlock()`
 //     (a critical section from before SetCurrentModule to the return)?
+//     Separately: is a lock ACQUIRED at all (compile_lock_acquired) and is it released by `defer` (compile_unlock_deferred)?
+//     A lock that is acquired but released by a plain Unlock() call leaks when the backend panics inside Compile.
 //  3. the functions that read wir's `currentModule`.
+//  4. writes INTO slices/maps that hang off the structs of internal/config (append in place, index assignment, delete,
+//     copy, in-place sort): Config.Clone and the loader's `*cfg` copy are shallow, so such a write is visible to every other
+//     call whose Config was cloned from the same template.
 //
 // Output: JSON. usage (cwd = repo root): go run c28_globals.go <repo> <pkgdir>...
 package main
@@ -49,11 +54,27 @@ type gvar struct {
 	Writers []writer `json:"writers"`
 }
 
+// a write INTO a slice/map that hangs off a struct of package config (Config, Manifest, PkgVFS …): these structs are
+// copied shallowly (Config.Clone is `q := *p`), so the slice's backing array / the map is shared by every copy made from
+// one template, and by the caller's own Config: x.F = append(x.F, …), x.F[i] = …, delete(x.F, k)
+type shared struct {
+	Pkg   string `json:"pkg"`
+	Func  string `json:"func"`
+	Field string `json:"field"`
+	Kind  string `json:"kind"`
+	Line  int    `json:"line"`
+	Code  string `json:"code"`
+}
+
 type facts struct {
 	Globals              []gvar   `json:"globals"`
 	CompileFound         bool     `json:"compile_found"`
 	CompileSetsCurrent   bool     `json:"compile_sets_current_module"`
 	CompileLocked        bool     `json:"compile_locked"`
+	CompileLockAcquired  bool     `json:"compile_lock_acquired"`
+	CompileUnlockDefer   bool     `json:"compile_unlock_deferred"`
+	CompileUnlockPlain   int      `json:"compile_unlock_plain_calls"`
+	SharedWrites         []shared `json:"shared_config_writes"`
 	CompileLockExpr      string   `json:"compile_lock_expr"`
 	CurrentModuleVar     bool     `json:"current_module_var_exists"`
 	CurrentModuleReaders []string `json:"current_module_readers"`
@@ -301,6 +322,84 @@ func main() {
 				return true
 			})
 		}
+		// ---- writes into slices/maps reachable from config structs (shared by shallow copies)
+		cfgField := func(e ast.Expr) string {
+			for {
+				if p, ok := e.(*ast.ParenExpr); ok {
+					e = p.X
+					continue
+				}
+				break
+			}
+			sel, ok := e.(*ast.SelectorExpr)
+			if !ok {
+				return ""
+			}
+			fv, ok := info.Uses[sel.Sel].(*types.Var)
+			if !ok || !fv.IsField() || fv.Pkg() == nil || !strings.HasSuffix(fv.Pkg().Path(), "internal/config") {
+				return ""
+			}
+			switch fv.Type().Underlying().(type) {
+			case *types.Slice, *types.Map:
+				owner := "config"
+				if t := info.TypeOf(sel.X); t != nil {
+					if pt, ok := t.Underlying().(*types.Pointer); ok {
+						t = pt.Elem()
+					}
+					if n, ok := t.(*types.Named); ok {
+						owner = n.Obj().Pkg().Name() + "." + n.Obj().Name()
+					}
+				}
+				return owner + "." + fv.Name()
+			}
+			return ""
+		}
+		for _, fd := range decls {
+			fd := fd
+			addS := func(field, kind string, n ast.Node) {
+				code := show(n)
+				if len(code) > 120 {
+					code = code[:117] + "..."
+				}
+				out.SharedWrites = append(out.SharedWrites, shared{Pkg: rel, Func: funcName(fd), Field: field, Kind: kind, Line: fset.Position(n.Pos()).Line, Code: code})
+			}
+			ast.Inspect(fd.Body, func(n ast.Node) bool {
+				switch st := n.(type) {
+				case *ast.AssignStmt:
+					for i, l := range st.Lhs {
+						if ix, ok := l.(*ast.IndexExpr); ok {
+							if f := cfgField(ix.X); f != "" {
+								addS(f, "index-assign", st)
+							}
+						}
+						if f := cfgField(l); f != "" && i < len(st.Rhs) {
+							if c, ok := st.Rhs[i].(*ast.CallExpr); ok {
+								if id, ok := c.Fun.(*ast.Ident); ok && id.Name == "append" && len(c.Args) > 0 && cfgField(c.Args[0]) == f {
+									addS(f, "append-in-place", st)
+								}
+							}
+						}
+					}
+				case *ast.CallExpr:
+					if id, ok := st.Fun.(*ast.Ident); ok && id.Name == "delete" && len(st.Args) == 2 {
+						if f := cfgField(st.Args[0]); f != "" {
+							addS(f, "delete", st)
+						}
+					}
+					if id, ok := st.Fun.(*ast.Ident); ok && id.Name == "copy" && len(st.Args) == 2 {
+						if f := cfgField(st.Args[0]); f != "" {
+							addS(f, "copy-into", st)
+						}
+					}
+					if sel, ok := st.Fun.(*ast.SelectorExpr); ok && (show(sel) == "sort.Strings" || show(sel) == "sort.Slice") && len(st.Args) > 0 {
+						if f := cfgField(st.Args[0]); f != "" {
+							addS(f, "sort-in-place", st)
+						}
+					}
+				}
+				return true
+			})
+		}
 		for v, ws := range found {
 			// one entry per (func, kind)
 			seen := map[string]bool{}
@@ -334,6 +433,10 @@ func main() {
 							if sel, ok := c.Fun.(*ast.SelectorExpr); ok {
 								if sel.Sel.Name == "Lock" && len(c.Args) == 0 && !out.CompileSetsCurrent {
 									locks[show(sel.X)] = true
+									out.CompileLockAcquired = true
+								}
+								if sel.Sel.Name == "Unlock" && len(c.Args) == 0 {
+									out.CompileUnlockPlain++
 								}
 								if show(c.Fun) == "wir.SetCurrentModule" {
 									out.CompileSetsCurrent = true
@@ -350,6 +453,9 @@ func main() {
 					if ds, ok := st.(*ast.DeferStmt); ok && !out.CompileSetsCurrent {
 						if sel, ok := ds.Call.Fun.(*ast.SelectorExpr); ok && sel.Sel.Name == "Unlock" && len(ds.Call.Args) == 0 {
 							unlocks[show(sel.X)] = true
+							if locks[show(sel.X)] {
+								out.CompileUnlockDefer = true
+							}
 						}
 					}
 				}
